@@ -275,6 +275,19 @@ func (e *Exec) loopCut(st *State, fr *Frame, b, pred *ssa.BasicBlock) bool {
 				case "stack-dyn":
 					g := fmt.Sprintf("len(vm.stack) == head(len(vm.stack)) - (%s) + 1", ex)
 					e.Assert(base+"/post[stack]", "post", fr.fn.String(), st, e.evalBool(g, env), g)
+				case "operand":
+					// instructions without a jump operand advance ip by their own size
+					sz := 0
+					switch strings.TrimSpace(ex) {
+					case "none":
+						sz = 1
+					case "const", "cast":
+						sz = 3
+					}
+					if sz > 0 {
+						g := fmt.Sprintf("vm.ip == head(vm.ip) + %d && vm.pp == head(vm.ip)", sz)
+						e.Assert(base+"/post[ip]", "post", fr.fn.String(), st, e.evalBool(g, env), g)
+					}
 				case "scopes":
 					var d int
 					fmt.Sscanf(ex, "%d", &d)
